@@ -72,6 +72,8 @@ impl BackendInternal {
         #[cfg(feature = "verif-hooks")]
         crate::verif::hit("be.before_recv", &[0]);
         let (reply, body, rfds) = self.sock.recv_body::<VhostUserU64>()?;
+        #[cfg(feature = "verif-hooks")]
+        crate::verif::hit("be.received", &[0]);
         if !reply.is_reply_for(hdr) || rfds.is_some() || !body.is_valid() {
             return Err(Error::InvalidMessage);
         }
